@@ -943,6 +943,7 @@ class EventBus:
         if not self._is_running:
             return None
 
+        get_next_queued_event: asyncio.Task['BaseEvent[Any]'] | None = None
         try:
             # Create a task for queue.get() so we can cancel it cleanly
             get_next_queued_event = asyncio.create_task(self._take_next_event())
@@ -970,6 +971,10 @@ class EventBus:
         except asyncio.CancelledError:
             # Never swallow cancellation: _run_loop() turns it into a clean exit.
             # Swallowing it here made a cancelled bus task keep polling forever (asyncio.run() could not exit).
+            # Do not leave the getter behind either: still registered with the queue, it would swallow the first
+            # event that is dispatched after a later dispatch() / wait_until_idle() has restarted the run loop.
+            if get_next_queued_event is not None:
+                get_next_queued_event.cancel()
             raise
         except (RuntimeError, QueueShutDown):
             # Queue was shut down or event loop is closing
